@@ -82,6 +82,19 @@ func c06Multi(j *rt.Job, seed uint64, r *rt.Rec) {
 		b := rng.Intn(a + 1)
 		cfgs[a], cfgs[b] = cfgs[b], cfgs[a]
 	}
+	// before any key exists the process verifies foreign signatures with assorted Winternitz parameters
+	// (outcomes are not judged here; the point is the history)
+	if j.Int("order")%3 != 2 {
+		for _, w := range []uint32{4, 256, 17, 3, 64, 16} {
+			var pk [67]byte
+			copy(pk[:], rng.Bytes(67))
+			pk[0], pk[1] = byte(rng.Intn(3)), byte(2+rng.Intn(3))
+			for _, l := range []int{2180 + 32*4, wBase(4) + 32*4, wBase(256) + 32*6, 2180 + 32*8} {
+				rt.Call(func() { xmss.VerifyWithCustomWOTSParamW([]byte("m"), rng.Bytes(l), pk, w) })
+			}
+		}
+		r.Count("foreign_verifications_before_keygen", 1)
+	}
 	for step, hc := range cfgs {
 		c := XCfg{H: hc[0], HF: hc[1], Seed: j.Str("seed")}
 		lib := c.newLib()
@@ -243,6 +256,21 @@ func c06Run(j *rt.Job, seed uint64, r *rt.Rec) {
 				return
 			}
 			r.Count("two_object_determinism", 1)
+		}
+		// long messages (beyond 64 KiB and 1 MiB) at a late index
+		for _, l := range []int{65535, 65536, 65537, 100000, 1 << 20} {
+			k := c.newLib()
+			i := n - 1 - uint32(rng.Intn(3))
+			k.SetIndex(i)
+			msg := rt.NewRand(uint64(l), "longmsg/"+c.Seed).Bytes(l)
+			sig, err := k.Sign(msg)
+			r.Eval(1)
+			if err != nil || sigDiff(ref.Sign(i, msg), sig) != "" {
+				r.Violate("C06/sig/long-message", fmt.Sprintf("signature of a %d-byte message at index %d differs from the reference (%s)", l, i, c), jobCase(j), "", "")
+				return
+			}
+			r.Count("long_message_signatures_equal", 1)
+			r.Distinct("long", c.Seed, c.HF, l)
 		}
 	case "mixed":
 		// a walk of jumps and signatures over the key's life
